@@ -45,7 +45,7 @@ func Weight(v string) uint64 {
 	switch {
 	case len(v) == 0:
 		return 0
-	case v[0] == 'a':
+	case v[0] == 'a', v[0] == 'c': // two different values of equal weight
 		return 1
 	default:
 		return 3
